@@ -1,1 +1,599 @@
-//! (stub)
+//! G-sorted: coordinate-sorted record sets built *from spans*, with a block layout script, and the
+//! file builders (BAM, bgzipped VCF, BCF) that realise them with the minimal fields needed.
+//!
+//! The generator is geometry aware: starts are dense around the bin edges of every level of the
+//! chosen `(min_shift, depth)`, spans are short / window-crossing / very long, and the shape
+//! "earlier long record, later short record inside one leaf window" is emitted explicitly.
+//! Everything is plain data (absolute one-based coordinates) so that replay files are readable.
+
+use crate::oracle::{binning, spans};
+use noodles_bam as bam;
+use noodles_bcf as bcf;
+use noodles_bgzf as bgzf;
+use noodles_core::Position;
+use noodles_sam as sam;
+use noodles_vcf as vcf;
+use proptest::prelude::*;
+use serde::{Deserialize, Serialize};
+use std::io::Write;
+
+#[derive(Clone, Copy, Debug, Serialize, Deserialize, PartialEq, Eq)]
+pub struct Geometry {
+    pub min_shift: u8,
+    pub depth: u8,
+}
+
+impl Geometry {
+    pub const DEFAULT: Geometry = Geometry { min_shift: 14, depth: 5 };
+    /// largest position a query may name: 2^(min_shift+3·depth) − 1 (also capped to BAM's 2^31 − 1)
+    pub fn max_pos(self) -> u64 {
+        (binning::n_positions(self.min_shift as u32, self.depth as u32) - 1).min((1u64 << 31) - 1)
+    }
+    pub fn leaf(self) -> u64 {
+        1u64 << self.min_shift
+    }
+}
+
+/// One record, described by its reference span.
+#[derive(Clone, Debug, Serialize, Deserialize, PartialEq)]
+pub struct RecSpec {
+    /// reference index
+    pub rid: u8,
+    /// one-based start
+    pub start: u64,
+    /// reference span length (≥ 1)
+    pub len: u64,
+    /// realisation selector (see `bam_cigar` / `vcf_fields`)
+    pub shape: u8,
+    /// BAM only: placed but flagged unmapped, no CIGAR (span 1 whatever `len` says)
+    pub unmapped: bool,
+    /// flush the BGZF writer after this record (block boundary)
+    pub flush: bool,
+}
+
+#[derive(Clone, Debug, Serialize, Deserialize, PartialEq)]
+pub struct SortedSet {
+    pub geom: Geometry,
+    /// number of references in the header (records only use `rid < n_ref`; some stay empty)
+    pub n_ref: u8,
+    /// in generation order; `sorted()` gives file order
+    pub recs: Vec<RecSpec>,
+    /// BAM only: unplaced unmapped records at the end of the file
+    pub unplaced: u8,
+    pub flush_after_header: bool,
+}
+
+#[derive(Clone, Debug, Serialize, Deserialize, PartialEq)]
+pub enum RegionSpec {
+    /// absolute; `None` = unbounded
+    Abs { rid: u8, start: Option<u64>, end: Option<u64> },
+    /// relative to the span of the `rec`-th record in file order (monotone selector):
+    /// `[edge + d0, edge + d0 + width]` with `edge` = span start or end
+    Rel { rec: u16, at_end: bool, d0: i32, width: u64, open_start: bool, open_end: bool },
+    /// an inverted ("empty") interval inside or next to the span of the `rec`-th record:
+    /// start = span start + d0, end = start − back (back ≥ 1); only weakly asserted
+    Inv { rec: u16, d0: i32, back: u64 },
+}
+
+/// A region resolved against a record set.
+#[derive(Clone, Copy, Debug, PartialEq, Eq)]
+pub struct Region {
+    pub rid: usize,
+    pub start: Option<u64>,
+    pub end: Option<u64>,
+}
+
+impl Region {
+    pub fn is_empty_interval(&self) -> bool {
+        matches!((self.start, self.end), (Some(s), Some(e)) if s > e)
+    }
+}
+
+/// Ground truth for one record in file order.
+#[derive(Clone, Debug, PartialEq)]
+pub struct Truth {
+    /// identity: index in file order (read names / IDs are derived from it)
+    pub idx: usize,
+    pub rid: Option<usize>,
+    /// one-based closed span from `oracle::spans`
+    pub span: Option<(u64, u64)>,
+    pub flagged_unmapped: bool,
+}
+
+pub fn ident(idx: usize) -> String {
+    format!("r{idx:06}")
+}
+
+impl SortedSet {
+    /// Records in file order: stable sort by (reference, start).
+    pub fn sorted(&self) -> Vec<RecSpec> {
+        let maxpos = self.geom.max_pos();
+        let mut v: Vec<RecSpec> = self
+            .recs
+            .iter()
+            .filter(|r| r.rid < self.n_ref && r.start >= 1 && r.start <= maxpos)
+            .cloned()
+            .map(|mut r| {
+                r.len = r.len.clamp(1, maxpos - r.start + 1);
+                r
+            })
+            .collect();
+        v.sort_by_key(|r| (r.rid, r.start));
+        v
+    }
+}
+
+impl RegionSpec {
+    pub fn resolve(&self, set: &SortedSet, sorted: &[RecSpec], spans: &[(u64, u64)]) -> Region {
+        let maxpos = set.geom.max_pos();
+        let n_ref = set.n_ref.max(1) as usize;
+        match *self {
+            RegionSpec::Abs { rid, start, end } => Region { rid: (rid as usize) % n_ref, start: start.map(|s| s.clamp(1, maxpos)), end: end.map(|e| e.clamp(1, maxpos)) },
+            RegionSpec::Rel { rec, at_end, d0, width, open_start, open_end } => {
+                if sorted.is_empty() {
+                    return Region { rid: 0, start: None, end: None };
+                }
+                let i = crate::engine::pick_idx(rec, sorted.len());
+                let (s, e) = spans[i];
+                let edge = if at_end { e } else { s } as i64;
+                let a = (edge + d0 as i64).clamp(1, maxpos as i64) as u64;
+                let b = a.saturating_add(width).min(maxpos);
+                Region { rid: sorted[i].rid as usize, start: if open_start { None } else { Some(a) }, end: if open_end { None } else { Some(b) } }
+            }
+            RegionSpec::Inv { rec, d0, back } => {
+                if sorted.is_empty() {
+                    return Region { rid: 0, start: Some(2.min(maxpos)), end: Some(1) };
+                }
+                let i = crate::engine::pick_idx(rec, sorted.len());
+                let (s, _) = spans[i];
+                let a = (s as i64 + d0 as i64).clamp(2, maxpos.max(2) as i64) as u64;
+                let b = a.saturating_sub(back.max(1)).max(1);
+                Region { rid: sorted[i].rid as usize, start: Some(a), end: Some(b.min(a - 1).max(1)) }
+            }
+        }
+    }
+}
+
+// ------------------------------------------------------------------------------------------------
+// strategies
+// ------------------------------------------------------------------------------------------------
+
+pub const GEOMETRIES: [Geometry; 6] = [
+    Geometry { min_shift: 14, depth: 5 },
+    Geometry { min_shift: 14, depth: 6 },
+    Geometry { min_shift: 12, depth: 5 },
+    Geometry { min_shift: 10, depth: 4 },
+    Geometry { min_shift: 16, depth: 4 },
+    Geometry { min_shift: 15, depth: 3 },
+];
+
+/// A zero-based bin edge of some level, as a one-based position just after it.
+fn anchor(g: Geometry) -> BoxedStrategy<u64> {
+    let (ms, d) = (g.min_shift as u32, g.depth as u32);
+    let maxpos = g.max_pos();
+    (0..=d, any::<u32>())
+        .prop_map(move |(lvl, k)| {
+            let w = ms + 3 * lvl;
+            let nbins = (maxpos >> w).max(1);
+            // low multiples are favoured (files stay small in coordinate terms), any multiple possible
+            let kk = if k & 3 != 0 { (k as u64 >> 2) % nbins.min(9) } else { ((k as u64) * nbins) >> 32 };
+            ((kk << w) + 1).clamp(1, maxpos)
+        })
+        .boxed()
+}
+
+fn span_len(g: Geometry) -> BoxedStrategy<u64> {
+    let leaf = g.leaf();
+    let d = g.depth as u32;
+    prop_oneof![
+        5 => 1u64..200,
+        2 => (leaf / 2)..(leaf * 2 + 2),                 // window crossing
+        2 => (0..=d, 1u64..20).prop_map(move |(lvl, k)| (leaf << (3 * lvl)) / 8 * k + 1), // fractions/multiples of a level's bin
+        1 => (0..=d).prop_map(move |lvl| (leaf << (3 * lvl)) + 1),
+        1 => 1u64..(1u64 << 27),                          // very long
+        1 => Just(1u64),
+    ]
+    .boxed()
+}
+
+fn rec_near(g: Geometry, anchors: Vec<u64>) -> BoxedStrategy<RecSpec> {
+    let leaf = g.leaf() as i64;
+    let maxpos = g.max_pos();
+    let off = prop_oneof![
+        4 => -6i64..=6,
+        3 => (-leaf)..=leaf,
+        2 => (-3 * leaf)..=(3 * leaf),
+        1 => (-70 * leaf)..=(70 * leaf),
+    ];
+    (any::<u16>(), off, span_len(g), 0u8..4, any::<u8>(), prop::bool::weighted(0.06), prop::bool::weighted(0.3))
+        .prop_map(move |(a, off, len, rid, shape, unmapped, flush)| {
+            let base = anchors[crate::engine::pick_idx(a, anchors.len())] as i64;
+            let start = (base + off).clamp(1, maxpos as i64) as u64;
+            RecSpec { rid, start, len: len.min(maxpos - start + 1).max(1), shape, unmapped, flush }
+        })
+        .boxed()
+}
+
+/// The explicit shape: a long record starting in a leaf window and leaving it, then short records
+/// that start later inside the same leaf window.
+fn long_before_short(g: Geometry, anchors: Vec<u64>) -> BoxedStrategy<Vec<RecSpec>> {
+    let leaf = g.leaf();
+    let maxpos = g.max_pos();
+    (any::<u16>(), 0u64..(leaf - 2), span_len(g), proptest::collection::vec((1u64..leaf, 1u64..60, any::<u8>(), prop::bool::weighted(0.4)), 1..4), 0u8..4, any::<u8>(), prop::bool::weighted(0.5))
+        .prop_map(move |(a, into, extra, shorts, rid, shape, flush)| {
+            let base = anchors[crate::engine::pick_idx(a, anchors.len())];
+            // window of the anchor: [w0, w0 + leaf)
+            let w0 = ((base - 1) / leaf) * leaf + 1;
+            let start = (w0 + into).min(maxpos);
+            let window_end = (w0 + leaf - 1).min(maxpos);
+            // long: reaches beyond the window end
+            let len = (window_end + 1 - start + extra).min(maxpos - start + 1).max(1);
+            let mut out = vec![RecSpec { rid, start, len, shape, unmapped: false, flush }];
+            for (d, l, sh, fl) in shorts {
+                let s = (start + d).min(window_end).max(start);
+                let l = l.min(window_end - s + 1).max(1);
+                out.push(RecSpec { rid, start: s, len: l, shape: sh, unmapped: false, flush: fl });
+            }
+            out
+        })
+        .boxed()
+}
+
+/// `max_recs`: upper bound of the free records (the explicit shapes come on top).
+pub fn sorted_set(geoms: &'static [Geometry], max_recs: usize) -> BoxedStrategy<SortedSet> {
+    proptest::sample::select(geoms)
+        .prop_flat_map(move |g| (Just(g), proptest::collection::vec(anchor(g), 1..4)))
+        .prop_flat_map(move |(g, anchors)| {
+            let free = proptest::collection::vec(rec_near(g, anchors.clone()), 0..=max_recs);
+            let shapes = proptest::collection::vec(long_before_short(g, anchors.clone()), 0..3);
+            (Just(g), 1u8..=4, free, prop_oneof![3 => Just(Vec::new()).boxed(), 2 => shapes.boxed()], prop_oneof![2 => Just(0u8), 1 => 1u8..5], any::<bool>())
+        })
+        .prop_map(|(geom, n_ref, free, shapes, unplaced, flush_after_header)| {
+            // the shapes go first so that, for equal starts, the long record precedes the short one
+            let mut recs: Vec<RecSpec> = shapes.into_iter().flatten().collect();
+            recs.extend(free);
+            SortedSet { geom, n_ref, recs, unplaced, flush_after_header }
+        })
+        .boxed()
+}
+
+pub fn region_specs(g: Geometry, n: usize) -> BoxedStrategy<Vec<RegionSpec>> {
+    let maxpos = g.max_pos();
+    let leaf = g.leaf();
+    let d = g.depth as u32;
+    let ms = g.min_shift as u32;
+    let width = prop_oneof![4 => 0u64..4, 2 => 0u64..300, 2 => (leaf - 2)..(leaf + 3), 1 => 0u64..(leaf * 20), 1 => 0u64..maxpos];
+    let rel = (any::<u16>(), any::<bool>(), prop_oneof![3 => -3i32..=3, 1 => -300i32..=300, 1 => (-(leaf as i32) - 2)..=(leaf as i32 + 2)], width, prop::bool::weighted(0.08), prop::bool::weighted(0.08))
+        .prop_map(|(rec, at_end, d0, width, open_start, open_end)| RegionSpec::Rel { rec, at_end, d0, width, open_start, open_end });
+    // bin aligned: [k·2^w + 1, (k+1)·2^w]
+    let aligned = (0u8..4, 0..=d, any::<u32>()).prop_map(move |(rid, lvl, k)| {
+        let w = ms + 3 * lvl;
+        let nbins = (maxpos >> w).max(1);
+        let kk = if k & 1 == 0 { (k as u64 >> 1) % nbins.min(12) } else { ((k as u64) * nbins) >> 32 };
+        RegionSpec::Abs { rid, start: Some(((kk << w) + 1).min(maxpos)), end: Some(((kk + 1) << w).min(maxpos)) }
+    });
+    let whole = (0u8..4).prop_map(|rid| RegionSpec::Abs { rid, start: None, end: None });
+    let anyabs = (0u8..4, proptest::option::weighted(0.9, 1u64..=maxpos), proptest::option::weighted(0.9, 1u64..=maxpos)).prop_map(|(rid, a, b)| match (a, b) {
+        (Some(x), Some(y)) => RegionSpec::Abs { rid, start: Some(x.min(y)), end: Some(x.max(y)) },
+        (a, b) => RegionSpec::Abs { rid, start: a, end: b },
+    });
+    let beyond = (0u8..4, 0u64..1000).prop_map(move |(rid, k)| RegionSpec::Abs { rid, start: Some(maxpos - k.min(maxpos - 1)), end: None });
+    // start > end: kept as a (weakly asserted) class
+    let empty = (any::<u16>(), 0i32..60, prop_oneof![3 => 1u64..40, 1 => 1u64..100_000]).prop_map(|(rec, d0, back)| RegionSpec::Inv { rec, d0, back });
+    let one = prop_oneof![10 => rel, 3 => aligned, 1 => whole, 2 => anyabs, 1 => beyond, 1 => empty];
+    proptest::collection::vec(one, 1..=n).boxed()
+}
+
+// ------------------------------------------------------------------------------------------------
+// realisation: BAM
+// ------------------------------------------------------------------------------------------------
+
+/// CIGAR for a reference span of `len` (M/N/D ops carry the span; I/S add query-only bases).
+pub fn bam_cigar(len: u64, shape: u8) -> Vec<(spans::Op, u64)> {
+    use spans::Op::*;
+    let len = len.max(1);
+    let v: Vec<(spans::Op, u64)> = match shape % 8 {
+        // plain match when short, otherwise split by a skip
+        0 | 1 => {
+            if len <= 12 {
+                vec![(M, len)]
+            } else {
+                let a = 1 + (shape as u64 % 5);
+                let b = 1 + (shape as u64 / 8 % 5);
+                vec![(M, a), (N, len - a - b), (M, b)]
+            }
+        }
+        2 => {
+            if len <= 12 {
+                vec![(Eq, len)]
+            } else {
+                vec![(M, 3), (D, len - 5), (M, 2)]
+            }
+        }
+        3 => {
+            if len <= 6 {
+                vec![(S, 2), (M, len), (S, 1)]
+            } else {
+                vec![(S, 2), (M, 2), (I, 1), (M, 1), (N, len - 5), (X, 1), (Eq, 1), (H, 3)]
+            }
+        }
+        4 => {
+            if len <= 4 {
+                vec![(X, len)]
+            } else {
+                vec![(H, 1), (M, 1), (N, (len - 2) / 2), (D, (len - 2) - (len - 2) / 2), (M, 1)]
+            }
+        }
+        5 => {
+            if len <= 12 {
+                vec![(M, len)]
+            } else {
+                vec![(M, 2), (P, 1), (N, len - 4), (M, 2), (S, 4)]
+            }
+        }
+        6 => {
+            if len <= 3 {
+                vec![(D, len)]
+            } else {
+                vec![(M, 1), (D, len - 2), (M, 1)]
+            }
+        }
+        _ => {
+            if len == 1 {
+                // zero reference span: only query-consuming operations (treated as one base)
+                vec![(S, 3), (I, 2)]
+            } else {
+                vec![(N, len - 1), (M, 1)]
+            }
+        }
+    };
+    // a BAM CIGAR operation length has 28 bits: split longer operations into equal-kind pieces
+    const MAX_OP: u64 = (1 << 28) - 1;
+    let mut out = Vec::with_capacity(v.len());
+    for (k, mut n) in v {
+        while n > MAX_OP {
+            out.push((k, MAX_OP));
+            n -= MAX_OP;
+        }
+        out.push((k, n));
+    }
+    out
+}
+
+fn bam_kind(op: spans::Op) -> sam::alignment::record::cigar::op::Kind {
+    use sam::alignment::record::cigar::op::Kind;
+    match op {
+        spans::Op::M => Kind::Match,
+        spans::Op::I => Kind::Insertion,
+        spans::Op::D => Kind::Deletion,
+        spans::Op::N => Kind::Skip,
+        spans::Op::S => Kind::SoftClip,
+        spans::Op::H => Kind::HardClip,
+        spans::Op::P => Kind::Pad,
+        spans::Op::Eq => Kind::SequenceMatch,
+        spans::Op::X => Kind::SequenceMismatch,
+    }
+}
+
+/// Ground truth of a set realised as BAM.
+pub fn bam_truth(set: &SortedSet) -> (Vec<RecSpec>, Vec<Truth>) {
+    let sorted = set.sorted();
+    let mut t: Vec<Truth> = sorted
+        .iter()
+        .enumerate()
+        .map(|(idx, r)| {
+            let span = if r.unmapped { spans::bam_span(r.start, &[]) } else { spans::bam_span(r.start, &bam_cigar(r.len, r.shape)) };
+            Truth { idx, rid: Some(r.rid as usize), span: Some(span), flagged_unmapped: r.unmapped }
+        })
+        .collect();
+    for k in 0..set.unplaced as usize {
+        t.push(Truth { idx: sorted.len() + k, rid: None, span: None, flagged_unmapped: true });
+    }
+    (sorted, t)
+}
+
+pub fn sam_header(set: &SortedSet) -> Result<sam::Header, String> {
+    use sam::header::record::value::{
+        Map,
+        map::{self, ReferenceSequence, header::{sort_order::COORDINATE, tag::SORT_ORDER}},
+    };
+    let hd = Map::<map::Header>::builder().insert(SORT_ORDER, COORDINATE).build().map_err(|e| format!("@HD: {e}"))?;
+    let len = std::num::NonZero::new(((1u64 << 31) - 1) as usize).ok_or("len")?;
+    let refs: sam::header::ReferenceSequences = (0..set.n_ref).map(|i| (bstr::BString::from(format!("sq{i}")), Map::<ReferenceSequence>::new(len))).collect();
+    Ok(sam::Header::builder().set_header(hd).set_reference_sequences(refs).build())
+}
+
+/// Write the set as BAM with the block layout script. Returns the file bytes.
+pub fn write_bam(set: &SortedSet) -> Result<Vec<u8>, String> {
+    use sam::alignment::io::Write as _;
+    use sam::alignment::record::{Flags, MappingQuality, cigar::Op};
+    use sam::alignment::record_buf::{Cigar, QualityScores, Sequence};
+    let header = sam_header(set)?;
+    let (sorted, _) = bam_truth(set);
+    let mut w = bam::io::Writer::new(Vec::new());
+    w.write_header(&header).map_err(|e| format!("write_header: {e}"))?;
+    if set.flush_after_header {
+        w.get_mut().flush().map_err(|e| format!("flush: {e}"))?;
+    }
+    for (idx, r) in sorted.iter().enumerate() {
+        let mut b = sam::alignment::RecordBuf::builder()
+            .set_name(ident(idx))
+            .set_reference_sequence_id(r.rid as usize)
+            .set_alignment_start(Position::new(r.start as usize).ok_or("position 0")?);
+        if r.unmapped {
+            b = b.set_flags(Flags::UNMAPPED);
+        } else {
+            let ops = bam_cigar(r.len, r.shape);
+            let cigar: Cigar = ops.iter().map(|&(k, n)| Op::new(bam_kind(k), n as usize)).collect();
+            let qlen = spans::cigar_query_len(&ops) as usize;
+            let mut flags = Flags::empty();
+            if r.shape & 0x10 != 0 {
+                flags |= Flags::REVERSE_COMPLEMENTED;
+            }
+            if r.shape & 0x20 != 0 {
+                flags |= Flags::SECONDARY;
+            }
+            b = b.set_flags(flags).set_cigar(cigar);
+            if let Some(mq) = MappingQuality::new(r.shape.wrapping_mul(37)) {
+                b = b.set_mapping_quality(mq);
+            }
+            // sequence + qualities consistent with the CIGAR, or both missing
+            if r.shape & 0x40 != 0 && qlen > 0 {
+                let bases: Vec<u8> = (0..qlen).map(|i| b"ACGT"[(i + idx) % 4]).collect();
+                b = b.set_sequence(Sequence::from(bases));
+                if r.shape & 0x80 != 0 {
+                    b = b.set_quality_scores(QualityScores::from((0..qlen).map(|i| ((i * 7 + idx) % 42) as u8).collect::<Vec<u8>>()));
+                }
+            }
+        }
+        let rec = b.build();
+        w.write_alignment_record(&header, &rec).map_err(|e| format!("write_alignment_record #{idx} ({r:?}): {e}"))?;
+        if r.flush {
+            w.get_mut().flush().map_err(|e| format!("flush: {e}"))?;
+        }
+    }
+    for k in 0..set.unplaced as usize {
+        let rec = sam::alignment::RecordBuf::builder().set_name(ident(sorted.len() + k)).set_flags(Flags::UNMAPPED).build();
+        w.write_alignment_record(&header, &rec).map_err(|e| format!("write unplaced: {e}"))?;
+        if k % 2 == 0 && set.flush_after_header {
+            w.get_mut().flush().map_err(|e| format!("flush: {e}"))?;
+        }
+    }
+    w.try_finish().map_err(|e| format!("try_finish: {e}"))?;
+    Ok(w.into_inner().into_inner())
+}
+
+// ------------------------------------------------------------------------------------------------
+// realisation: VCF / BCF
+// ------------------------------------------------------------------------------------------------
+
+#[derive(Clone, Copy, Debug, Serialize, Deserialize, PartialEq, Eq)]
+pub enum VcfVersion {
+    V42,
+    V43,
+    V44,
+    /// END is no longer the span source; only the weaker relation is asserted
+    V45,
+}
+
+/// REF length used for a record: the span itself when short (or moderately long with shape bit),
+/// otherwise 1 with INFO END (pre-4.5) / SVLEN (4.5).
+pub fn vcf_fields(r: &RecSpec) -> (u64, Option<u64>) {
+    let by_ref = r.len <= 40 || (r.shape & 1 == 0 && r.len <= 3000) || (r.shape & 7 == 0 && r.len <= 40_000);
+    if by_ref { (r.len, None) } else { (1 + (r.shape as u64 >> 6), Some(r.start + r.len - 1)) }
+}
+
+pub fn vcf_truth(set: &SortedSet) -> (Vec<RecSpec>, Vec<Truth>) {
+    let sorted = set.sorted();
+    let t = sorted
+        .iter()
+        .enumerate()
+        .map(|(idx, r)| {
+            let (ref_len, end) = vcf_fields(r);
+            Truth { idx, rid: Some(r.rid as usize), span: Some(spans::vcf_span(r.start, ref_len, end)), flagged_unmapped: false }
+        })
+        .collect();
+    (sorted, t)
+}
+
+pub fn vcf_header(set: &SortedSet, version: VcfVersion) -> vcf::Header {
+    use vcf::header::{FileFormat, record::value::{Map, map::{AlternativeAllele, Contig, Filter, Info, info::{Number, Type}}}};
+    use vcf::variant::record::info::field::key;
+    let ff = match version {
+        VcfVersion::V42 => FileFormat::new(4, 2),
+        VcfVersion::V43 => FileFormat::new(4, 3),
+        VcfVersion::V44 => FileFormat::new(4, 4),
+        VcfVersion::V45 => FileFormat::new(4, 5),
+    };
+    let mut b = vcf::Header::builder()
+        .set_file_format(ff)
+        .add_filter("PASS", Map::<Filter>::pass())
+        // explicit definitions (the per-version tables of noodles do not cover 4.2)
+        .add_info(key::END_POSITION, Map::<Info>::new(Number::Count(1), Type::Integer, "End position"))
+        .add_alternative_allele("DEL", Map::<AlternativeAllele>::new("Deletion"));
+    if version == VcfVersion::V45 {
+        // (4.3 reserves SVLEN as Number=.; the key is only used by the 4.5 files)
+        b = b.add_info(key::SV_LENGTHS, Map::<Info>::new(Number::AlternateBases, Type::Integer, "Length of structural variant"));
+    }
+    for i in 0..set.n_ref {
+        b = b.add_contig(format!("sq{i}"), Map::<Contig>::new());
+    }
+    b.build()
+}
+
+pub fn vcf_records(set: &SortedSet, version: VcfVersion) -> Vec<vcf::variant::RecordBuf> {
+    use vcf::variant::record::info::field::key;
+    use vcf::variant::record_buf::{AlternateBases, Ids, info::field::{Value, value::Array}};
+    let (sorted, _) = vcf_truth(set);
+    sorted
+        .iter()
+        .enumerate()
+        .map(|(idx, r)| {
+            let (ref_len, end) = vcf_fields(r);
+            let bases: String = (0..ref_len as usize).map(|i| b"ACGTN"[(i + idx) % 5] as char).collect();
+            let ids: Ids = [ident(idx)].into_iter().collect();
+            let mut b = vcf::variant::RecordBuf::builder()
+                .set_reference_sequence_name(format!("sq{}", r.rid))
+                .set_variant_start(Position::new(r.start as usize).unwrap_or(Position::MIN))
+                .set_ids(ids)
+                .set_reference_bases(bases);
+            match end {
+                Some(e) => {
+                    b = b.set_alternate_bases(AlternateBases::from(vec![String::from("<DEL>")]));
+                    let info: vcf::variant::record_buf::Info = if version == VcfVersion::V45 {
+                        // 4.5: span from SVLEN (positive, one per ALT)
+                        [(String::from(key::SV_LENGTHS), Some(Value::Array(Array::Integer(vec![Some((e - r.start + 1) as i32)]))))].into_iter().collect()
+                    } else {
+                        [(String::from(key::END_POSITION), Some(Value::from(e as i32)))].into_iter().collect()
+                    };
+                    b = b.set_info(info);
+                }
+                None => {
+                    if r.shape & 2 != 0 {
+                        b = b.set_alternate_bases(AlternateBases::from(vec![String::from(if ref_len == 1 { "T" } else { "A" })]));
+                    }
+                }
+            }
+            b.build()
+        })
+        .collect()
+}
+
+pub fn write_vcf_gz(set: &SortedSet, version: VcfVersion) -> Result<Vec<u8>, String> {
+    use vcf::variant::io::Write as _;
+    let header = vcf_header(set, version);
+    let (sorted, _) = vcf_truth(set);
+    let recs = vcf_records(set, version);
+    let mut w = vcf::io::Writer::new(bgzf::io::Writer::new(Vec::new()));
+    w.write_header(&header).map_err(|e| format!("write_header: {e}"))?;
+    if set.flush_after_header {
+        w.get_mut().flush().map_err(|e| format!("flush: {e}"))?;
+    }
+    for (r, rec) in sorted.iter().zip(&recs) {
+        w.write_variant_record(&header, rec).map_err(|e| format!("write_variant_record ({r:?}): {e}"))?;
+        if r.flush {
+            w.get_mut().flush().map_err(|e| format!("flush: {e}"))?;
+        }
+    }
+    w.into_inner().finish().map_err(|e| format!("finish: {e}"))
+}
+
+pub fn write_bcf(set: &SortedSet, version: VcfVersion) -> Result<Vec<u8>, String> {
+    use vcf::variant::io::Write as _;
+    let header = vcf_header(set, version);
+    let (sorted, _) = vcf_truth(set);
+    let recs = vcf_records(set, version);
+    let mut w = bcf::io::Writer::new(Vec::new());
+    w.write_header(&header).map_err(|e| format!("write_header: {e}"))?;
+    if set.flush_after_header {
+        w.get_mut().flush().map_err(|e| format!("flush: {e}"))?;
+    }
+    for (r, rec) in sorted.iter().zip(&recs) {
+        w.write_variant_record(&header, rec).map_err(|e| format!("write_variant_record ({r:?}): {e}"))?;
+        if r.flush {
+            w.get_mut().flush().map_err(|e| format!("flush: {e}"))?;
+        }
+    }
+    w.try_finish().map_err(|e| format!("try_finish: {e}"))?;
+    Ok(w.into_inner().into_inner())
+}
